@@ -381,6 +381,9 @@ func c06Run(c *h.Ctx) {
 			runRibHistory(c, id, seed, algo, "C06")
 		}
 	}
+	if c.Batch < 4 {
+		c06Lifecycle(c) // last: leaves a running daemon behind in this child process
+	}
 }
 
 func init() {
@@ -388,7 +391,7 @@ func init() {
 		ID:    "C06",
 		Level: "exploration",
 		Rule: "histories of 15-45 register / re-register (changed cost, flags) / unregister / face-cleanup operations over nested prefixes with gaps (depth 0..5 over {a,b}), 5 faces, origins {0,65,128,255}, costs {0,1,5,10}, all four child-inherit/capture combinations, each run against the name-tree and the hash-table FIB; " +
-			"after every op a from-scratch flattening of the harness's own route multiset is compared with FindNextHops for every probe name (all names of depth <=4, every registered prefix and extensions), with GetAllFIBEntries (exact map) and with Rib.GetAllEntries; distinct = (op, gap on path, capture on ancestor, capture on self, several origins for one face, has descendants)",
+			"after every op a from-scratch flattening of the harness's own route multiset is compared with FindNextHops for every probe name (all names of depth <=4, every registered prefix and extensions), with GetAllFIBEntries (exact map) and with Rib.GetAllEntries; face life cycle (4 batches, running mini daemon): a local face registers a prefix for itself before and/or after faces/destroy removed it from the face table, then its transport closes - afterwards no RIB route and no FIB next hop may refer to it; distinct = (op, gap on path, capture on ancestor, capture on self, several origins for one face, has descendants)",
 		Assumptions: []string{"flattening rule re-implemented from the statement: own routes + child-inherit routes of shorter prefixes, walking up, stopping after the first prefix holding a capture route; nothing when the prefix itself holds a capture route; minimum cost per face"},
 		Batches:     func(t bool) int { return 16 },
 		ChildTimeoutS: func(t bool) int {
